@@ -267,6 +267,9 @@ def drive(sc):
         e["error"] = type(exc).__name__
         return [e], {"nontrivial": False, "key": str(sc), "rejected": True}
     e["accepted"] = True
+    if sc["bnd"] == "nested":
+        # (a configuration the specification refuses: nothing further is projected from whatever was accepted)
+        return [e], {"nontrivial": False, "key": str(sc), "rejected": False}
     e["first"] = project(c)
     dumped = json.loads(json.dumps(c.model_dump(round_trip=True), default=jsonable))
     try:
